@@ -62,7 +62,8 @@ class Expression:
         return None
 
     def functionalize(self, out, flags, is_generator=False):
-        name = f'_parse_function_{self.program_id}'
+        # (Stay clear of the names `_parse_<rule>` that the rules get.)
+        name = f'_helper_function_{self.program_id}'
 
         extras = ['_ctx'] if flags.uses_context else []
         params = extras + [str(TEXT), str(POS)] + list(sorted(self.freevars()))
